@@ -4,7 +4,7 @@ From Coq Require Import List NArith ZArith Lia Bool.
 From Coq.Strings Require Import Byte.
 From RecordUpdate Require Import RecordSet.
 From Model Require Import Bytes Utf8 Frame Parser FrameParser Response Conn.
-From Proofs Require Import ParserFacts FrameParserFacts ConnFacts ApiFacts TraceFacts RunFacts ShapeFacts CloseFacts ReadyFacts DeliveryFacts.
+From Proofs Require Import ParserFacts FrameParserFacts ConnFacts ApiFacts TraceFacts RunFacts ShapeFacts CloseFacts ReadyFacts DeliveryFacts HandshakeFacts.
 Import ListNotations RecordSetNotations.
 Open Scope N_scope.
 
@@ -106,5 +106,58 @@ Section Reject.
     destruct (feedf cf app (advance c4 dt0) (r0 :: reply')) as [c6 st6]. cbn [fst snd] in *.
     destruct st6; [|apply calm_finish; exact C6..].
     rewrite (closed_ends_gracefully cf app rest c6 (K6 eq_refl)). apply calm_finish. exact C6.
+  Qed.
+  (* an over-long header block (terminated or not) in the first read: ProtocolError, and nothing that needs Ready *)
+  Lemma feed_too_long c d : fresh c -> k_closed c = false ->
+    16384 < N.of_nat (length d) -> (forall i, find_sep CRLFCRLF d = Some i -> 16384 < N.of_nat (i + 4)) ->
+    calm (fst (feedf cf app c d)) /\ snd (feedf cf app c d) <> SOk.
+  Proof.
+    intros (R & P & T) Hcl Hlen Hsep.
+    rewrite feedf_unfold by (rewrite P; exact fp_init_ok). unfold feed_body. rewrite Hcl, P.
+    rewrite (HandshakeFacts.header_block_too_long d Hlen Hsep).
+    set (c1 := c <| k_ps := fp_init |>).
+    assert (R1 : k_ready c1 = false) by exact R.
+    destruct (bf_raise_in_feed cf app c1 (perr_to_merr PE_HeaderTooLong) R1) as [(l & E & F) R2].
+    split; [|apply raise_in_feed_not_ok].
+    unfold calm. rewrite E. apply rstate_before; [exact F|exact T].
+  Qed.
+
+  Theorem too_long_run keys wf zt ct dt0 d rest :
+    16384 < N.of_nat (length d) -> (forall i, find_sep CRLFCRLF d = Some i -> 16384 < N.of_nat (i + 4)) ->
+    Forall quiet (evs (k_tr (run cf app (init keys wf zt ct) CnOk (StRead dt0 (RData d) :: rest)))).
+  Proof.
+    intros Hlen Hsep. apply rstate_false.
+    assert (P0 : fresh (init keys wf zt ct)) by (repeat split; reflexivity).
+    assert (W : forall c, calm c -> calm (if k_with c then close_socket c else c)).
+    { intros c H. destruct (k_with c); [apply calm_close_socket; exact H|exact H]. }
+    unfold run. apply W. unfold run_gen.
+    pose proof (fresh_deliver _ EvConnecting eq_refl P0) as P1.
+    destruct (deliver app (init keys wf zt ct) EvConnecting) as [c1 st1]. cbn [fst] in P1.
+    destruct st1; [|apply fresh_calm; exact P1..].
+    set (c2 := c1 <| k_sock := true |>).
+    assert (P2 : fresh c2) by exact P1.
+    match goal with |- context [let '(c3, r) := ?X in _] => destruct X as [c3 r] eqn:EX end.
+    assert (P3 : fresh c3).
+    { destruct (negb (k_sock c2)); [inversion EX; subst; exact P2|].
+      destruct (k_closed c2); [inversion EX; subst; exact P2|]. destruct (k_closing c2); [inversion EX; subst; exact P2|].
+      unfold pop_wfault in EX. destruct (k_wfaults c2) as [|w ws]; [inversion EX; subst; exact P2|].
+      destruct w; inversion EX; subst; exact P2. }
+    destruct r as [x|].
+    { pose proof (fresh_deliver (close_socket c3) EvConnectFail eq_refl (fresh_close_socket c3 P3)) as P4.
+      destruct (deliver app (close_socket c3) EvConnectFail) as [c4 st4]. apply fresh_calm. exact P4. }
+    pose proof (fresh_deliver c3 EvConnected eq_refl P3) as P4.
+    destruct (deliver app c3 EvConnected) as [c4 st4]. cbn [fst] in P4.
+    destruct st4; [|apply calm_close_socket; apply fresh_calm; exact P4..].
+    cbn [loop]. destruct (k_closed c4) eqn:Ecl; [apply calm_finish; apply fresh_calm; exact P4|].
+    assert (Er : regular cf app (advance c4 dt0) = (advance c4 dt0, SOk)).
+    { apply regular_not_ready. destruct P4 as (R & _). exact R. }
+    rewrite Er.
+    assert (P5 : fresh (advance c4 dt0)) by exact P4.
+    destruct (k_sock (advance c4 dt0)).
+    2:{ destruct (is_active (advance c4 dt0)); apply calm_finish; apply fresh_calm; exact P5. }
+    destruct d as [|d0 d']; [cbn in Hlen; lia|].
+    destruct (feed_too_long (advance c4 dt0) (d0 :: d') P5 Ecl Hlen Hsep) as [C6 K6].
+    destruct (feedf cf app (advance c4 dt0) (d0 :: d')) as [c6 st6]. cbn [fst snd] in *.
+    destruct st6; [congruence|apply calm_finish; exact C6..].
   Qed.
 End Reject.
